@@ -71,14 +71,24 @@ func localSigs(fn *ssa.Function) map[string]string {
 		hdr[h] = i + 1
 	}
 	sets := map[string]map[string]bool{}
+	resultNamed := map[string]bool{}
 	add := func(name, sig string) {
-		if name == "" || name == "_" {
+		if name == "" || name == "_" || resultNamed[name] {
 			return
 		}
 		if sets[name] == nil {
 			sets[name] = map[string]bool{}
 		}
 		sets[name][sig] = true
+	}
+	if res := fn.Signature.Results(); res != nil {
+		for i := 0; i < res.Len(); i++ {
+			if n := res.At(i).Name(); n != "" && n != "_" {
+				// a named result is identified by its position alone
+				sets[n] = map[string]bool{fmt.Sprintf("result:%d:%s", i, types.TypeString(res.At(i).Type(), nil)): true}
+				resultNamed[n] = true
+			}
+		}
 	}
 	for _, p := range fn.Params {
 		add(p.Name(), valueSig(fn, p, hdr))
@@ -147,6 +157,12 @@ func computeAlias(base, cur map[string]string) map[string]string {
 		}
 		if len(cands) == 1 {
 			alias[old] = cands[0]
+		} else if len(cands) == 0 && strings.HasPrefix(sig, "result:") {
+			// the result lost its name: it is still the result at that position
+			var k int
+			if _, err := fmt.Sscanf(sig, "result:%d:", &k); err == nil {
+				alias[old] = fmt.Sprintf("result%d", k)
+			}
 		}
 	}
 	// two old names must not map to one new name
@@ -155,7 +171,7 @@ func computeAlias(base, cur map[string]string) map[string]string {
 		used[n]++
 	}
 	for o, n := range alias {
-		if used[n] > 1 {
+		if used[n] > 1 && !strings.HasPrefix(n, "result") {
 			delete(alias, o)
 		}
 	}
